@@ -20,7 +20,7 @@ FUNCTIONS = [('hio.core.http.serving', 'Server.serviceReqs'), ('hio.core.http.se
              ('hio.core.http.serving', 'Responder.reset'), ('hio.core.http.serving', 'Responder.build'), ('hio.core.http.serving', 'Responder.write'),
              ('hio.core.http.serving', 'Responder.start'), ('hio.core.http.serving', 'Responder.service'), ('hio.core.http.serving', 'Responder.close'),
              ('hio.core.http.serving', 'Requestant.checkPersisted'), ('hio.core.http.httping', 'packChunk')]
-BOUNDS = {'quick': dict(requests=2, budget_s=150, audit_max=8), 'thorough': dict(requests=3, budget_s=1500, audit_max=20)}
+BOUNDS = {'quick': dict(requests=2, budget_s=150, audit_max=8), 'thorough': dict(requests=3, budget_s=1500, audit_max=20, third_request='HTTP/1.1 or 1.0, first two bodies, whole or split-with-empty-piece')}
 OUTSIDE = ['HTTP/1.0 keep-alive requests whose response has no Content-Length cannot stay open AND be self-delimiting: the oracle counts them as non-persistent (the server must close)', 'applications that declare a Content-Length LONGER than the body they produce (an application error the server cannot repair)', 'write() callable use, HTTPError raised by the app',
            'server-sent-event responses', 'more than `requests` requests per connection', 'request bodies']
 STUBS = ['FakeNet; scripted WSGI app; stderr/loggers silenced; Date header clock pinned']
@@ -35,7 +35,11 @@ def partitions(tier):
     ps = []
     for v1 in ('1.1', '1.0ka', '1.0'):
         for cl1 in ('cl', 'nocl', 'short'):
-            ps.append(dict(name='first-%s-%s' % (v1, cl1), v1=v1, cl1=cl1, requests=b['requests']))
+            if b['requests'] < 3 or v1 == '1.0':      # after a plain HTTP/1.0 request the connection is closed: one follower is enough
+                ps.append(dict(name='first-%s-%s' % (v1, cl1), v1=v1, cl1=cl1, requests=min(b['requests'], 2)))
+            else:      # three requests: one partition per version of the second request as well
+                for v2 in ('1.1', '1.1close', '1.0ka', '1.0'):
+                    ps.append(dict(name='first-%s-%s-second-%s' % (v1, cl1, v2), v1=v1, cl1=cl1, v2=v2, requests=b['requests']))
     return ps
 
 
@@ -205,10 +209,11 @@ def harness(sym, part):
         if r == 0:
             ver, cl = part['v1'], part['cl1']
         else:
-            ver = sym.choice('ver%d' % r, ['1.1', '1.1close', '1.0ka', '1.0'])
+            ver = part['v2'] if (r == 1 and 'v2' in part) else sym.choice('ver%d' % r, ['1.1', '1.1close', '1.0ka', '1.0'] if not (nreq >= 3 and r == 2) else ['1.1', '1.0'])
             cl = sym.choice('cl%d' % r, ['cl', 'nocl', 'short'])
-        body = sym.choice('body%d' % r, BODIES)
-        pieces = sym.cint('pieces%d' % r, 0, 2)
+        third = nreq >= 3 and r == 2      # the third request of a triple: reduced body / piece choice (stated in BOUNDS)
+        body = sym.choice('body%d' % r, BODIES if not third else BODIES[:2])
+        pieces = sym.cint('pieces%d' % r, 0, 2) if not (nreq >= 3 and r >= 1) else 2 * sym.cint('pieces%d' % r, 0, 1)
         status = sym.choice('status%d' % r, ['200 OK', '404 Not Found']) if r == 0 else '200 OK'
         specs.append(dict(ver=ver, cl=cl, body=body, pieces=pieces, status=status))
     # every choice is realised: the server run has nothing symbolic left, so it runs with the tracer off
